@@ -12,6 +12,7 @@ import (
 	"io"
 	"net/http"
 	"sync"
+	"time"
 
 	"github.com/tmpim/casket"
 	"github.com/tmpim/casket/caskethttp/httpserver"
@@ -29,6 +30,7 @@ type Script struct {
 	Err        string              `json:"err,omitempty"`
 	Panic      string              `json:"panic,omitempty"` // "", "before", "after"
 	EchoBody   bool                `json:"echo_body,omitempty"`
+	PauseMs    int                 `json:"pause_ms,omitempty"` // sleep after every chunk (keeps the handler in flight)
 }
 
 type Result struct {
@@ -165,6 +167,9 @@ func (h handler) ServeHTTP(w http.ResponseWriter, r *http.Request) (int, error) 
 				if f, ok := w.(http.Flusher); ok {
 					f.Flush()
 				}
+			}
+			if s.PauseMs > 0 {
+				time.Sleep(time.Duration(s.PauseMs) * time.Millisecond)
 			}
 		}
 	}
